@@ -347,7 +347,7 @@ def _k1(ctx: Context) -> None:
     # every hkdf_derive call in the protocol module uses a specification row
     rows = set(hap.HKDF_LABELS.values())
     n_calls = 0
-    for q in (Q, f"{pp.P}.perform_pair_setup_part2"):
+    for q in (Q,):  # pair-setup's derivations belong to C03 (its own transcript rules), not to this property
         g = ctx.func(q)
         gcfg = ctx.cfg(q)
         for n in gcfg.nodes:
@@ -358,7 +358,7 @@ def _k1(ctx: Context) -> None:
                     ck.check("C01.K1", s[0] == "const" and i[0] == "const" and (s[1], i[1]) in rows, f"{g.name}: HKDF labels {s[1] if s[0] == 'const' else '?'!r}/{i[1] if i[0] == 'const' else '?'!r} are a specification row",
                              f"{ctx.fkey(g)}:hkdf-labels:{show(s, 40)}", f"{g.name}: hkdf_derive is called with salt {show(s, 60)} / info {show(i, 60)}, which is not a (salt, info) pair of the HAP specification",
                              ctx.loc(g, n))
-    ck.require_min("C01.K1", "hkdf_derive calls with literal labels in the protocol module", n_calls, 4)
+    ck.require_min("C01.K1", "hkdf_derive calls with literal labels in get_session_keys", n_calls, 1)
     # the session key of pair-verify
     full = _full_return(cfg, T)
     if full is None:
@@ -474,7 +474,14 @@ def _t3(ctx: Context) -> None:
             ck.check("C01.T3", bound.get(pname) == want, f"CoAP: {want[1].decode()} -> {pname} -> {use}", f"{ctx.fkey(g)}:slot:{pname}",
                      f"CoAP: EncryptionContext.{pname} receives the key derived with {bound.get(pname)}; it must be {want}", ctx.loc(g, n))
             m = ctx.func(f"{EC}.{use}")
-            uses = {x.func.value.attr for x in walk_own(m.node) if isinstance(x, ast.Call) and isinstance(x.func, ast.Attribute) and x.func.attr in ("encrypt", "decrypt") and isinstance(x.func.value, ast.Attribute)}
+            mcfg = ctx.cfg(m.qualname)
+            uses = set()
+            for mn in mcfg.nodes:
+                for x in ctx.calls(mn):
+                    if isinstance(x.func, ast.Attribute) and x.func.attr in ("encrypt", "decrypt"):
+                        rp = ctx.expr_path(mcfg, mn, x.func.value)  # receiver with local aliases resolved
+                        if rp and rp.startswith(m.pos_params[0] + ".") and rp.count(".") == 1:
+                            uses.add(rp.split(".", 1)[1])
             kind = "encrypt" if use == "encrypt" else "decrypt"
             okk = uses == {pname} and any(isinstance(x, ast.Call) and isinstance(x.func, ast.Attribute) and x.func.attr == kind for x in walk_own(m.node))
             ck.check("C01.T3", okk, f"CoAP: {use}() uses {pname}", f"{ctx.fkey(m)}:uses", f"CoAP: EncryptionContext.{use} uses {sorted(uses)}", m.loc())
